@@ -149,6 +149,9 @@ struct WCase {
     /// the state of the document around the metadata (the flags and texts the user set have to come back whatever it is)
     #[serde(default)]
     doc: Doc,
+    /// name under which the saved file is loaded again
+    #[serde(default)]
+    name: NameSel,
 }
 
 #[derive(Clone, Debug, Default, PartialEq, Hash, Serialize, Deserialize)]
@@ -197,6 +200,9 @@ struct RCase {
     /// the fields of the record that carry nothing the property lists: whatever they contain, the trailer is cut off exactly
     #[serde(default)]
     free: Free,
+    /// name under which both the content alone and content+EOF+SAUCE are loaded
+    #[serde(default)]
+    name: NameSel,
 }
 
 #[derive(Clone, Debug, Default, PartialEq, Hash, Serialize, Deserialize)]
@@ -479,6 +485,68 @@ fn file_name(fmt: u8) -> std::path::PathBuf {
     Path::new("c11").with_extension(ext(fmt))
 }
 
+/// The file name is an input of Buffer::from_bytes (it selects the loader).
+/// kind: 0 "c11.ext", 1 upper case extension, 2 mixed case extension, 3 alternative extension number `k` of the format (the engine's list; none -> kind 0),
+/// 4 an extension no format registers (`k` picks it), 5 no extension at all ("c11"), 6 no stem (".ext": that is a hidden file without extension),
+/// 7 "pic.ext.bak" (the extension is bak), 8 "pic.bak.ext", 9 "dir.xb/pic.ext" (a directory that looks like another format)
+#[derive(Clone, Debug, Default, PartialEq, Hash, Serialize, Deserialize)]
+struct NameSel {
+    kind: u8,
+    k: u8,
+}
+
+const UNKNOWN_EXTS: [&str; 7] = ["nfo", "txt", "mem", "x", "sauce", "an", "ansi"];
+
+fn alt_extensions(fmt: u8) -> Vec<String> {
+    FORMATS.iter().find(|f| f.get_file_extension() == ext(fmt)).map(|f| f.get_alt_extensions()).unwrap_or_default()
+}
+
+/// (path, loader): the loader is the format's own for every spelling of a registered extension, the ANSI loader for anything else (Buffer::from_bytes falls back to it)
+fn path_for(fmt: u8, n: &NameSel) -> (std::path::PathBuf, u8) {
+    let e = ext(fmt);
+    match n.kind {
+        1 => (format!("C11.{}", e.to_ascii_uppercase()).into(), fmt),
+        2 => {
+            let mixed: String = e.chars().enumerate().map(|(i, c)| if (i + n.k as usize) % 2 == 0 { c.to_ascii_uppercase() } else { c }).collect();
+            (format!("c11.{mixed}").into(), fmt)
+        }
+        3 => {
+            let alts = alt_extensions(fmt);
+            if alts.is_empty() {
+                (file_name(fmt), fmt)
+            } else {
+                (format!("c11.{}", alts[n.k as usize % alts.len()]).into(), fmt)
+            }
+        }
+        4 => (format!("c11.{}", UNKNOWN_EXTS[n.k as usize % UNKNOWN_EXTS.len()]).into(), ANS),
+        5 => ("c11".into(), ANS),
+        6 => (format!(".{e}").into(), ANS),
+        7 => (format!("pic.{e}.bak").into(), ANS),
+        8 => (format!("pic.bak.{e}").into(), fmt),
+        9 => (format!("dir.xb/pic.{e}").into(), fmt),
+        _ => (file_name(fmt), fmt),
+    }
+}
+
+/// Names that end up at the ANSI loader make sense for content an ANSI parser can be fed with: the text formats and bin.
+/// (xb/tnd/adf/idf/icy files contain font, palette and chunk bytes; the native format keeps its SAUCE in a chunk the ANSI loader cannot see.)
+fn name_sel(fmt: u8) -> BoxedStrategy<NameSel> {
+    let own = prop_oneof![8 => Just(0u8), 2 => Just(1u8), 2 => Just(2u8), 2 => Just(3u8), 1 => Just(8u8), 1 => Just(9u8)];
+    let kind = if matches!(fmt, ANS | ASC | PCB | AVT | BIN) { prop_oneof![5 => own, 2 => Just(4u8), 1 => Just(7u8), 1 => Just(5u8), 1 => Just(6u8)].boxed() } else { own.boxed() };
+    (kind, 0u8..8).prop_map(|(kind, k)| NameSel { kind, k: if matches!(kind, 2 | 3 | 4) { k } else { 0 } }).boxed()
+}
+
+/// Names without extension: `Path::extension()` is None. If the loader cannot cope with that at all the case says nothing about SAUCE.
+fn unusable_name(path: &Path) -> Option<String> {
+    if path.extension().is_some() {
+        return None;
+    }
+    match std::panic::catch_unwind(|| Buffer::from_bytes(path, false, b"x").is_ok()) {
+        Ok(_) => None,
+        Err(_) => Some("file name without extension: Buffer::from_bytes panics before it looks at the data (subject of C02)".to_string()),
+    }
+}
+
 /// cells + size + the colours the cells point to
 #[derive(PartialEq)]
 struct Picture {
@@ -513,16 +581,15 @@ fn picture_diff(a: &Picture, b: &Picture) -> Option<(bool, String)> {
 }
 
 /// the picture of `content` when no SAUCE handling is involved at all
-fn load_plain(fmt: u8, content: &[u8]) -> Result<Buffer, String> {
+fn load_plain(name: &Path, loader: u8, content: &[u8]) -> Result<Buffer, String> {
     // a content that itself ends in something that reads as a record is ambiguous for from_bytes: hand it to the format loader directly
     let looks_sauced = content.len() >= 128 && &content[content.len() - 128..content.len() - 123] == b"SAUCE";
-    let name = file_name(fmt);
     if !looks_sauced {
-        return Buffer::from_bytes(&name, false, content).map_err(|e| e.to_string());
+        return Buffer::from_bytes(name, false, content).map_err(|e| e.to_string());
     }
     for f in FORMATS.iter() {
-        if f.get_file_extension() == ext(fmt) {
-            return f.load_buffer(&name, content, None).map_err(|e| e.to_string());
+        if f.get_file_extension() == ext(loader) {
+            return f.load_buffer(name, content, None).map_err(|e| e.to_string());
         }
     }
     Err("no such format".into())
@@ -692,11 +759,11 @@ fn wcase(fmt: u8, defaults: bool) -> BoxedStrategy<WCase> {
             2 => Doc { font_shape, buffer_type, ..Doc::default() },
             _ => Doc { font_shape, font_page: 0, font_w, font_h, buffer_type },
         });
-    ((field(35), field(20), field(20), comment_lines()), (ice, any::<bool>(), any::<bool>(), fnt, wd), (height(), cells(), any::<u8>()), (history, prev_meta(fmt), doc))
-        .prop_map(move |((title, author, group, comments), (ice, letter_spacing, aspect_ratio, font, width), (mut height, cells, tag), (history, prev, mut doc))| {
+    ((field(35), field(20), field(20), comment_lines()), (ice, any::<bool>(), any::<bool>(), fnt, wd), (height(), cells(), any::<u8>()), (history, prev_meta(fmt), doc, name_sel(fmt)))
+        .prop_map(move |((title, author, group, comments), (ice, letter_spacing, aspect_ratio, font, width), (mut height, cells, tag), (history, prev, mut doc, name))| {
             let mut meta = Meta { title, author, group, comments, ice, letter_spacing, aspect_ratio, font, width };
             normalise(fmt, &mut meta, &mut doc, &mut height, tag);
-            WCase { fmt, meta, height, cells, history, prev: if history == 0 { None } else { Some(prev) }, doc }
+            WCase { fmt, meta, height, cells, history, prev: if history == 0 { None } else { Some(prev) }, doc, name }
         })
         .boxed()
 }
@@ -825,9 +892,10 @@ fn rcase(fmt: u8) -> BoxedStrategy<RCase> {
         (field(35), field(20), field(20), comment_lines(), any::<bool>()),
         (0u8..=3, 0u8..=3, 0u8..=3, 1u16..=300, prop_oneof![6 => Just(0u8), 1 => Just(1u8), 1 => Just(2u8)], 1001u16..=65535, any::<bool>(), any::<bool>()),
         free(),
+        name_sel(fmt),
     )
         .prop_map(
-            move |(((content, tail), cells, height), (title, author, group, comments, comment_pad_nul), (ls, ar, lines_sel, lines_val, width_sel, big_width, font_ibm_vga, ansimation), free)| RCase {
+            move |(((content, tail), cells, height), (title, author, group, comments, comment_pad_nul), (ls, ar, lines_sel, lines_val, width_sel, big_width, font_ibm_vga, ansimation), free, name)| RCase {
                 fmt,
                 content,
                 tail,
@@ -851,6 +919,7 @@ fn rcase(fmt: u8) -> BoxedStrategy<RCase> {
                 // a record without character width reads as "width not given" = 80 (deliberate, see the property), and the number of lines of a Character / XBin
                 // record becomes the height of a picture without rows. Neither is something the property speaks about: bin keeps its natural variant.
                 free: if fmt == BIN { Free { odd_type: 0, data_type: 0, file_type: 0, ..free } } else { free },
+                name,
             },
         )
         .boxed()
@@ -946,6 +1015,12 @@ fn with_history_class(c: &WCase, check: fn(&WCase) -> Verdict) -> Verdict {
             );
         }
     }
+    if c.name != NameSel::default() {
+        let plain = WCase { name: NameSel::default(), ..c.clone() };
+        if !same(&plain) {
+            return Verdict::fail(format!("{key}|file_name"), format!("{msg} [loaded as {:?}; the same file loaded as {:?} passes]", path_for(c.fmt, &c.name).0, file_name(c.fmt)));
+        }
+    }
     if c.history != 0 {
         let fresh = WCase { history: 0, prev: None, ..c.clone() };
         if !same(&fresh) {
@@ -980,9 +1055,13 @@ fn check_meta_once(c: &WCase) -> Verdict {
             return Verdict::fail(format!("save.error|fmt={fmt}"), format!("writer refused a document of its own domain: {e}"));
         }
     };
-    let loaded = match Buffer::from_bytes(&file_name(c.fmt), false, &bytes) {
+    let (path, loader) = path_for(c.fmt, &c.name);
+    if let Some(why) = unusable_name(&path) {
+        return Verdict::discard(why);
+    }
+    let loaded = match Buffer::from_bytes(&path, false, &bytes) {
         Ok(b) => b,
-        Err(e) => return Verdict::fail(format!("load.error|fmt={fmt}"), format!("file written with SAUCE does not load: {e}")),
+        Err(e) => return Verdict::fail(format!("load.error|fmt={fmt}"), format!("file written with SAUCE does not load as {path:?}: {e}")),
     };
     let Some(s) = loaded.get_sauce() else {
         return Verdict::fail(format!("meta.absent|fmt={fmt}"), "file saved with SAUCE, get_sauce() after load is None".to_string());
@@ -1009,7 +1088,7 @@ fn check_meta_once(c: &WCase) -> Verdict {
     // width: the loader uses the carried value when it is in 1..=1000 and 80 otherwise (stated in the property)
     let cw = carried_width(c.fmt, m.width as i32);
     // (iCE Draw files carry their exact width in the IDF header, which wins over the even BinaryText width of the record)
-    let want_w = if c.fmt == IDF {
+    let want_w = if c.fmt == IDF && loader == IDF {
         m.width as i32
     } else if (1..=1000).contains(&cw) {
         cw
@@ -1020,7 +1099,7 @@ fn check_meta_once(c: &WCase) -> Verdict {
         return Verdict::fail(format!("meta.width.buffer|fmt={fmt}"), format!("saved width {}, variant carries {cw}, loaded buffer is {} wide", m.width, loaded.get_width()));
     }
     // (for iCE Draw the record is re-synchronised with the width of the IDF header on load)
-    let cw = if c.fmt == IDF { want_w } else { cw };
+    let cw = if c.fmt == IDF && loader == IDF { want_w } else { cw };
     if (1..=1000).contains(&cw) && s.buffer_size.width != cw {
         return Verdict::fail(format!("meta.width.sauce|fmt={fmt}"), format!("saved width {}, variant carries {cw}, get_sauce().buffer_size.width = {}", m.width, s.buffer_size.width));
     }
@@ -1420,6 +1499,8 @@ struct DCase {
     comments: u8,
     content: Bytes,
     eof: bool,
+    #[serde(default)]
+    name: NameSel,
 }
 
 const D_CONTENTS: [&[u8]; 3] = [b"", b"A", b"AB"];
@@ -1503,7 +1584,10 @@ fn grid_case(i: u64) -> WCase {
     let fmt = GRID_FMTS[i / (GRID_H.len() * GRID_W.len())];
     let meta = Meta { title: Bytes(b"size grid".to_vec()), comments: vec![Bytes(format!("{w}x{h}").into_bytes())], width: w, ..Meta::default() };
     let cells = vec![Cell { x: 0, y: 0, ch: b'A', fg: 7, bg: 0 }, Cell { x: u16::MAX, y: 0, ch: b'Z', fg: 7, bg: 0 }];
-    WCase { fmt, meta, height: h, cells, history: 0, prev: None, doc: Doc::default() }
+    // the file name dimension rides along: every spelling that keeps the format's loader, and for the text formats also an unregistered extension
+    let kinds: &[u8] = if matches!(fmt, ANS | ASC | PCB | AVT) { &[0, 1, 2, 3, 8, 9, 4, 7] } else { &[0, 1, 2, 8, 9] };
+    let name = NameSel { kind: kinds[i % kinds.len()], k: (i / kinds.len()) as u8 % 8 };
+    WCase { fmt, meta, height: h, cells, history: 0, prev: None, doc: Doc::default(), name }
 }
 
 // ---------------------------------------------------------------------------------------------------------------
